@@ -166,6 +166,7 @@ pub fn extern_block(terms: usize) -> String {
 /// Render a plain CFG with unit actions and extern tokens.
 pub fn render_unit_extern(g: &Cfg, algo: Algo, cg: Codegen) -> String {
     let mut s = String::new();
+    s.push_str("use super::Tok;\n");
     s.push_str(&grammar_attrs(algo, cg));
     s.push_str("grammar;\n");
     s.push_str(&extern_block(g.terms));
